@@ -46,7 +46,23 @@ type Pkg struct {
 	ProbeSchema bool   `json:"probe_schema"` // probe: ship a schema file (else require-template-schema-exists: false)
 	ProbeWhere  string `json:"probe_where"`  // gen | src | root
 	MixedDir    int    `json:"mixed_dir"`    // unsplit file with two interfaces: 0 dir at package level; 1 each interface spells the same dir differently (both relative); 2 one relative, one absolute
+	FileSp      int    `json:"file_sp"`      // spelling of the filename value: 0 plain name, else with a directory component (see fileSpellings)
 	Outs        []Out  `json:"outs"`
+}
+
+// fileSpellings: how a filename value is written and which path below (or next to) dir it
+// designates. The docs define the output as dir joined with filename; the designated file is
+// Clean(dir/filename) whatever the spelling (verified on the unchanged tree for all of these).
+var fileSpellings = []struct{ name, value, resolved string }{
+	{"plain", "", ""},
+	{"nest/", "nest/", "nest/"},
+	{"./", "./", ""},
+	{"../", "../", "../"},
+	{"nest/../", "nest/../", ""},
+	{"nest/deep/", "nest/deep/", "nest/deep/"},
+	{"templated/", "{{.SrcPackageName}}/", "%PKG%/"},
+	{"nest//", "nest//", "nest/"},
+	{"../nest/", "../nest/", "../nest/"},
 }
 
 type Fault struct {
@@ -132,6 +148,9 @@ func gen(t *rapid.T) Case {
 		p.ProbeSchema = rapid.Bool().Draw(t, "probe_schema")
 		p.ProbeWhere = rapid.SampledFrom([]string{"gen", "gen", "src", "root"}).Draw(t, "probe_where")
 		p.MixedDir = rapid.SampledFrom([]int{0, 0, 0, 1, 2}).Draw(t, "mixed_dir")
+		if rapid.Bool().Draw(t, "file_sp_set") {
+			p.FileSp = rapid.IntRange(1, len(fileSpellings)-1).Draw(t, "file_sp")
+		}
 		n := 1
 		if p.Split {
 			n = 2
@@ -237,6 +256,9 @@ func normalise(c Case) Case {
 			if p.Kind == "probe" {
 				p.ProbeWhere = "gen"
 			}
+			if strings.HasPrefix(fileSpellings[clampSp(p.FileSp)].resolved, "../") {
+				p.FileSp = 1 // the directory to block must lie below the module root
+			}
 		case "write":
 			if !strings.HasPrefix(p.Outs[f.Out].Init, "dir") {
 				p.Outs[f.Out].Init = "dir"
@@ -245,6 +267,15 @@ func normalise(c Case) Case {
 	}
 	for i := range c.Pkgs {
 		p := &c.Pkgs[i]
+		p.FileSp = clampSp(p.FileSp)
+		if strings.HasPrefix(fileSpellings[p.FileSp].resolved, "../") && (p.Kind == "inpkg" || (p.Kind == "probe" && p.ProbeWhere == "root")) {
+			// in-package file names are not package specific (two packages would meet one level up),
+			// and a root-level probe output would leave the module
+			p.FileSp = 1
+		}
+		if p.Kind == "inpkg" && !p.Split && p.DefaultName {
+			p.FileSp = 0 // no filename value is written at all
+		}
 		needBelow := p.Split && p.SplitHow == "iface"
 		if p.Split || p.NIf != 2 || p.MixedDir < 0 || p.MixedDir > 2 {
 			p.MixedDir = 0
@@ -293,6 +324,13 @@ func mixedDirKnown() bool {
 		}
 	}
 	return false
+}
+
+func clampSp(sp int) int {
+	if sp < 0 || sp >= len(fileSpellings) {
+		return 0
+	}
+	return sp
 }
 
 func isGoOutput(p Pkg) bool { return p.Kind != "probe" }
@@ -393,10 +431,12 @@ func build(c Case) *model {
 				pm.dirValue = spellDir(pm.target, p.Name, p.DirSp)
 			}
 		}
+		fsp := fileSpellings[clampSp(p.FileSp)]
 		mk := func(idx int, file string, ifs []string, ifaceLevel bool) {
-			o := &outM{pkg: pi, idx: idx, rel: filepath.Clean(filepath.Join(pm.target, file)), ifaces: ifs}
+			resolved := strings.ReplaceAll(fsp.resolved, "%PKG%", p.Name) + file
+			o := &outM{pkg: pi, idx: idx, rel: filepath.Clean(filepath.Join(pm.target, resolved)), ifaces: ifs}
 			if ifaceLevel {
-				o.filename = file
+				o.filename = fsp.value + file
 			}
 			if p.Kind == "mocks" {
 				o.goPkg = pm.pkgname
@@ -438,20 +478,20 @@ func build(c Case) *model {
 			if p.Kind == "inpkg" {
 				file = "mocks_test.go"
 				if !p.DefaultName {
-					pm.fileValue = file
+					pm.fileValue = fsp.value + file
 				}
 			} else {
-				pm.fileValue = file
+				pm.fileValue = fsp.value + file
 			}
 			mk(0, file, names, false)
 		} else {
 			for j, n := range names {
 				switch p.SplitHow {
 				case "templated":
-					pm.fileValue = stem + "_{{.InterfaceName}}" + ext
+					pm.fileValue = fsp.value + stem + "_{{.InterfaceName}}" + ext
 					mk(j, stem+"_"+n+ext, []string{n}, false)
 				case "lower":
-					pm.fileValue = "{{.InterfaceName | lower}}_" + stem + ext
+					pm.fileValue = fsp.value + "{{.InterfaceName | lower}}_" + stem + ext
 					mk(j, strings.ToLower(n)+"_"+stem+ext, []string{n}, false)
 				default:
 					mk(j, fmt.Sprintf("%s_%d%s", stem, j, ext), []string{n}, true)
@@ -491,7 +531,7 @@ func (m *model) failing() map[*outM]bool {
 // blocker is the path of the regular file that stands where a directory is needed (mkdir fault).
 func (m *model) blocker() string {
 	f := m.c.Fault
-	t := m.pkgs[f.Pkg].target
+	t := filepath.Dir(m.pkgs[f.Pkg].outs[f.Out].rel) // the directory the output file goes into
 	if f.Variant == 1 && strings.Contains(t, "/") {
 		return filepath.Dir(t)
 	}
@@ -1331,6 +1371,10 @@ func countCase(c Case, m *model, steps []stepObs, finished bool) {
 		}
 		if p.All {
 			cl = append(cl, "all=true")
+		}
+		cl = append(cl, "filename-sp="+fileSpellings[clampSp(p.FileSp)].name)
+		if p.FileSp != 0 {
+			cl = append(cl, "filename-with-dir-component")
 		}
 		if p.MixedDir != 0 {
 			cl = append(cl, pick(p.MixedDir == 2, "same-file-dirs=rel+abs", "same-file-dirs=rel+rel"))
